@@ -134,6 +134,46 @@ class Module:
         return self.name[len(PKG) + 1:] if self.name.startswith(PKG + '.') else self.name
 
 
+def normalise_tree(tree: ast.AST) -> None:
+    """Semantics-preserving normal form the rules are written against (so that they do not depend on these choices):
+       N1  `x = E` immediately followed by `return x`, x used nowhere else   ->  `return E`
+       N2  `if not A: B else: C` (a real else, not an elif)                  ->  `if A: C else: B`
+    Node positions of the kept nodes are unchanged."""
+    for fn in [n for n in ast.walk(tree) if isinstance(n, (ast.FunctionDef, ast.AsyncFunctionDef))]:
+        counts: Dict[str, int] = {}
+        for n in ast.walk(fn):
+            if isinstance(n, ast.Name):
+                counts[n.id] = counts.get(n.id, 0) + 1
+        pairs: Dict[str, int] = {}
+        blocks = []
+        for n in ast.walk(fn):
+            for fld in ('body', 'orelse', 'finalbody'):
+                blk = getattr(n, fld, None)
+                if isinstance(blk, list) and blk and isinstance(blk[0], ast.stmt):
+                    blocks.append(blk)
+            if isinstance(n, ast.Try):
+                for h in n.handlers:
+                    blocks.append(h.body)
+        cands = []
+        for blk in blocks:
+            for i in range(len(blk) - 1):
+                a, r = blk[i], blk[i + 1]
+                if isinstance(a, ast.Assign) and len(a.targets) == 1 and isinstance(a.targets[0], ast.Name) and \
+                        isinstance(r, ast.Return) and isinstance(r.value, ast.Name) and r.value.id == a.targets[0].id:
+                    pairs[a.targets[0].id] = pairs.get(a.targets[0].id, 0) + 1
+                    cands.append((blk, a, r))
+        for blk, a, r in cands:
+            nm = a.targets[0].id
+            if counts.get(nm, 0) == 2 * pairs[nm]:
+                r.value = a.value
+                blk.remove(a)
+    for n in ast.walk(tree):
+        if isinstance(n, ast.If) and isinstance(n.test, ast.UnaryOp) and isinstance(n.test.op, ast.Not) and n.orelse and \
+                not (len(n.orelse) == 1 and isinstance(n.orelse[0], ast.If)):
+            n.test = n.test.operand
+            n.body, n.orelse = n.orelse, n.body
+
+
 class Program:
     def __init__(self, repo_src: str):
         self.repo_src = repo_src
@@ -165,6 +205,7 @@ class Program:
                     tree = ast.parse(src, filename=path)
                 except SyntaxError as exc:
                     raise AnalysisError(f'{path}: does not parse: {exc}') from exc
+                normalise_tree(tree)
                 self.modules[rel] = Module(rel, path, src, tree, is_pkg)
 
     def module_paths(self) -> Dict[str, str]:
